@@ -57,8 +57,13 @@ impl Helper {
                 .await
                 .expect("Failed to read from storage")
             {
-                let block =
-                    bincode::deserialize(&bytes).expect("Failed to deserialize our own block");
+                let block = match bincode::deserialize(&bytes) {
+                    Ok(block) => block,
+                    Err(e) => {
+                        warn!("Sync request for a digest that is not a block: {}", e);
+                        continue;
+                    }
+                };
                 let message = bincode::serialize(&ConsensusMessage::Propose(block))
                     .expect("Failed to serialize block");
                 self.network.send(address, Bytes::from(message)).await;
